@@ -826,8 +826,9 @@ class StaticDist(DelayDistribution):
                 dist=self.dist,
                 probs=jnp.array(q).reshape(-1),
                 N_grid_points=int(1e3),
-                grid_min=float(qs_component_min.min()) * 0.9,
-                grid_max=float(qs_component_max.max()) * 1.1,
+                # Widen the grid by 10% on both sides (multiplying by 0.9 / 1.1 narrows it when a bound is negative)
+                grid_min=float(qs_component_min.min()) - 0.1 * abs(float(qs_component_min.min())),
+                grid_max=float(qs_component_max.max()) + 0.1 * abs(float(qs_component_max.max())),
             )[0]
             return qs.reshape(shape)
         else:
